@@ -127,6 +127,7 @@ Section WithEnv.
     change (s_cls s0) with c.
     destruct (read (seekg st1 (to_signed64 pos)) (shdr_size c)) as [st3 got] eqn:ER. cbn [fst snd] in R1, R2.
     change (is_content st1) with (is_content st) in R1. subst got. rewrite Hsl.
+    rewrite (lenN_shdr_bytes enc s'), Hc, N.eqb_refl. cbn [negb].
     assert (FS : fill_struct (shdr_bytes enc s0) (shdr_bytes enc s') = shdr_bytes enc s').
     { unfold fill_struct. rewrite skipnN_all; [apply app_nil_r|]. rewrite !lenN_shdr_bytes, Hc. cbn. lia. }
     rewrite FS.
@@ -167,6 +168,7 @@ Section WithEnv.
     change (s_cls s0) with c.
     destruct (read (seekg st1 (to_signed64 pos)) (shdr_size c)) as [st3 got] eqn:ER. cbn [fst snd] in R1, R2.
     change (is_content st1) with (is_content st) in R1. subst got. rewrite Hsl.
+    rewrite (lenN_shdr_bytes enc s'), Hc, N.eqb_refl. cbn [negb].
     assert (FS : fill_struct (shdr_bytes enc s0) (shdr_bytes enc s') = shdr_bytes enc s').
     { unfold fill_struct. rewrite skipnN_all; [apply app_nil_r|]. rewrite !lenN_shdr_bytes, Hc. cbn. lia. }
     rewrite FS.
